@@ -65,6 +65,9 @@ def hermitian_input(rng, c, shape):
 def observe(c, rid, rng):
     dims, nt = c["dims"], c["nt"]
     w = FFTWrapper(list(dims), ntransform=nt, fwd=c["fwd"], r2c=c["r2c"], inplace=c["inplace"], batch_first=c["bf"])
+    if not hasattr(w, "_ptr") or not w._ptr:
+        # a wrapper that builds its C plan lazily: one call on zeros forces it (the layout observation needs the plan)
+        w.call(np.zeros(tuple(w.input_shape), dtype=np.float64 if (c["r2c"] and c["fwd"]) else np.complex128))
     p = ctypes.cast(w._ptr, ctypes.POINTER(PlanStruct)).contents
     in_real = c["r2c"] and c["fwd"]
     out_real = c["r2c"] and not c["fwd"]
